@@ -158,7 +158,8 @@ def sweep(chk):
     fi = prog.lookup_method(cls, sweep_name)
     name = fi.qual
     RUNNING = ("attr", SELF, "running")
-    ISDOWN = ("attr", SELF, slots.shutdown_event(prog))
+    ev_name = slots.shutdown_event(prog)
+    ISDOWN = ("attr", SELF, ev_name) if ev_name else None
     FLAG = ("attr", SELF, slots.shutdown_flag(prog))
     SLEEP = ("glob", "ext:trio.sleep")
     inj = [("raise", exc_value("ext:trio.Cancelled", "injected")), ("raise", REPRESENTATIVES["AnyException"]), ("raise", REPRESENTATIVES["OtherBase"])]
@@ -191,7 +192,7 @@ def sweep(chk):
             label = "flag sequence %s, path ends: %s" % (must, show(o.value) if o.kind == "raise" else o.kind)
             if o.kind == "cut":
                 continue
-            if rs and (not dc or dc[0] > rs[0]):
+            if ISDOWN is not None and rs and (not dc or dc[0] > rs[0]):
                 chk.bad(rule, name, "running is reported before the shutdown-complete event is cleared: a shutdown() issued right after `running` returns without waiting for the sweep", node=fi.node, stmt="running-before-clear", input=label)
                 ok = False
             if rs and (not rc or rc[-1] < rs[-1]):
@@ -214,6 +215,9 @@ def sweep(chk):
         st = [i for i, e in enumerate(evs) if e[0] == "store" and e[1] == FLAG and e[2] == ("const", True)]
         wt = [i for i, e in enumerate(evs) if e[0] == "call" and e[1][1] == ("attr", ISDOWN, "wait")]
         sp = [i for i, e in enumerate(evs) if e[0] == "call" and e[1][1][0] == "attr" and e[1][1][2] == "stop" and e[1][1][1] == ("attr", SELF, slots.service_meta(prog))]
+        if ISDOWN is None and len(sp) == 1:
+            # no wait at all: stopping the runners cancels the sweep, which is enough for accept() to return
+            continue
         if len(st) != 1 or len(wt) != 1 or len(sp) != 1:
             chk.bad(rule, sd.qual, "shutdown does not perform exactly: set the request flag, wait for the sweep's end event, stop the runners (flag writes %d, waits %d, stops %d)" % (len(st), len(wt), len(sp)), node=sd.node, stmt="shutdown-steps")
             ok = False
